@@ -198,6 +198,7 @@ def ltf_plan(**args):
             dftlen = Lmin
 
         nseg = int(round_half_up((N - dftlen) / (xov * dftlen) + 1))
+        nseg = min(nseg, N - dftlen + 1)
         if nseg == 1:
             dftlen = N
 
@@ -219,6 +220,7 @@ def ltf_plan(**args):
         L_j = int(L_arr[j])
         L_arr[j] = L_j
         averages = int(round_half_up(((N - L_j) / (1 - olap)) / L_j + 1))
+        averages = min(averages, N - L_j + 1)
         navg_arr.append(averages)
 
         if averages == 1:
@@ -336,6 +338,7 @@ def vectorized_ltf_plan(**args):
     
     r_map = fs / L_grid
     K_map = np.round((N - L_grid) / (xov * L_grid) + 1).astype(np.int64)
+    K_map = np.minimum(K_map, (N - L_grid + 1).astype(np.int64))
     L_map = L_grid.astype(np.int64)
 
     # --- Phase 2: Walk the map ---
@@ -442,7 +445,7 @@ def new_ltf_plan(**args):
         if dftlen < Lmin: dftlen = Lmin
         
         # If only one segment possible, use the full data length
-        nseg = int(np.round((N - dftlen) / (xov * dftlen) + 1))
+        nseg = min(int(np.round((N - dftlen) / (xov * dftlen) + 1)), N - dftlen + 1)
         if nseg == 1:
             dftlen = N
 
@@ -455,7 +458,7 @@ def new_ltf_plan(**args):
             fres = fi / bmin
             dftlen = int(fs/fres) # Recalculate L if bmin was enforced
             fbin = bmin
-            nseg = int(np.round((N - dftlen) / (xov * dftlen) + 1))
+            nseg = min(int(np.round((N - dftlen) / (xov * dftlen) + 1)), N - dftlen + 1)
 
 
         # --- C. Store results and update state for the next iteration ---
